@@ -269,7 +269,7 @@ func (g *genr) addDeps(d *Deps, self string, n int, aliasOdds int) {
 		if g.rng.Intn(aliasOdds) == 0 {
 			x = Dep{Name: g.aliasKey(t.Name), Req: x.Req, Real: t.Name}
 		}
-		if keys[x.Name] || (x.Real == "" && keys[x.Name]) {
+		if keys[x.Name] {
 			continue
 		}
 		keys[x.Name] = true
@@ -286,12 +286,18 @@ func (g *genr) addDeps(d *Deps, self string, n int, aliasOdds int) {
 	}
 }
 
-func (g *genr) bundle(holder string, depth, maxDepth int, taken map[string]bool) *Bundle {
+// bundle draws a bundle tree. holders are the names of the packages whose
+// node_modules enclose it (root first). A bundled copy of one of its own
+// holders is mostly avoided: with a requirement back on the holder that is the
+// shape on which the npm resolver does not terminate (C04's finding), and such
+// resolutions are skipped here anyway.
+func (g *genr) bundle(holders []string, depth, maxDepth int, taken map[string]bool) *Bundle {
 	t := g.somePkg()
-	for tries := 0; tries < 4 && (taken[t.Name] || t.Name == holder); tries++ {
+	avoid := g.rng.Intn(12) != 0
+	for tries := 0; tries < 6 && (taken[t.Name] || (avoid && contains(holders, t.Name))); tries++ {
 		t = g.somePkg()
 	}
-	if taken[t.Name] {
+	if taken[t.Name] || (avoid && contains(holders, t.Name)) {
 		return nil
 	}
 	b := &Bundle{Dir: t.Name, Name: t.Name}
@@ -319,7 +325,7 @@ func (g *genr) bundle(holder string, depth, maxDepth int, taken map[string]bool)
 		nn := 1 + g.rng.Intn(2)
 		nt := map[string]bool{}
 		for i := 0; i < nn; i++ {
-			if nb := g.bundle(t.Name, depth+1, maxDepth, nt); nb != nil {
+			if nb := g.bundle(append(append([]string(nil), holders...), t.Name), depth+1, maxDepth, nt); nb != nil {
 				b.Nested = append(b.Nested, nb)
 				g.declare(&b.Deps, nb)
 			}
@@ -393,7 +399,7 @@ func Generate(rng *rand.Rand, maxDepth int) *Registry {
 				nb := 1 + rng.Intn(2)
 				taken := map[string]bool{}
 				for i := 0; i < nb; i++ {
-					if b := g.bundle(p.Name, 1, maxDepth, taken); b != nil {
+					if b := g.bundle([]string{p.Name}, 1, maxDepth, taken); b != nil {
 						v.Bundled = append(v.Bundled, b)
 						g.declare(&v.Deps, b)
 					}
